@@ -289,8 +289,47 @@ def _run(ctx, hist, compare=True):
     return res
 
 
+def fault_family(ctx):
+    """a command whose backend call fails - with any of the exception classes a backend can raise, a timeout among
+    them - is still answered exactly once, and the session goes on.  (The situations and the runner are C13's; the
+    judgement here is C05's: the number of replies and the state of the session, whatever the code.)"""
+    import multiprocessing
+    import os
+
+    from props import c13
+
+    res = Result()
+    jobs = []
+    for i, sit in enumerate(c13.SITUATIONS):
+        for fc in range(len(c13.FAULT_CLASSES)):
+            for k in ((0,) if not ctx.thorough() else (0, 1, 2)):
+                jobs.append((i, "memory", k, None, False, fc))
+    mp = multiprocessing.get_context("fork")
+    with mp.Pool(min(16, os.cpu_count() or 4)) as pool:
+        outs = pool.map(c13._job, jobs, chunksize=4)
+    for job, r in zip(jobs, outs):
+        sit = c13.SITUATIONS[job[0]]
+        inp = {"kind": "backend-fault", "situation": sit[0], "preparation": sit[1], "command": sit[2], "fault_at_call": job[2], "fault_class": c13.FAULT_CLASSES[job[5]][0], "job": list(job)}
+        res.cases += 1
+        res.count("fault_family")
+        if isinstance(r, str):
+            res.disagreements.append({"correspondence": "C05 fault harness", "input": inp, "impl": r})
+            continue
+        if job[2] >= len(r["calls"]):
+            continue  # the command makes fewer backend calls than that: nothing was injected
+        res.distinct.add(("fault", sit[0], job[2], job[5]))
+        finals = [c for c in r["codes"] if c >= 200]
+        if len(finals) != 1:
+            res.oracle_failures.append({"input": inp, "what": "%r, whose backend call %s raised %s, got %d final replies %r (session alive: %s)" % (sit[2], r["calls"][job[2]], inp["fault_class"], len(finals), r["codes"], r["alive"]), "signature": "C05:reply-count:backend-fault"})
+        elif not r["alive"] or r["follow_pwd"] != [257]:
+            res.oracle_failures.append({"input": inp, "what": "after %r (backend call %s raised %s, replies %r) the session does not go on: PWD -> %r" % (sit[2], r["calls"][job[2]], inp["fault_class"], r["codes"], r["follow_pwd"]), "signature": "C05:session-ended-by-backend-fault"})
+    return res
+
+
 def correspondence(ctx):
-    return _run(ctx, gen_histories(ctx))
+    r = _run(ctx, gen_histories(ctx))
+    r.merge(fault_family(ctx))
+    return r
 
 
 def search(ctx, prior):
@@ -298,10 +337,21 @@ def search(ctx, prior):
     for d in prior.disagreements:
         if isinstance(d.get("input"), list):
             hist.insert(0, ("disagreement", d["input"]))
-    return _run(ctx, hist, compare=False)
+    r = _run(ctx, hist, compare=False)
+    r.merge(fault_family(ctx))
+    return r
 
 
 def replay(ctx, doc):
+    if doc["failure"]["input"].get("kind") == "backend-fault":
+        from props import c13
+
+        r = c13._job(tuple(doc["failure"]["input"]["job"]))
+        print("implementation:", r if isinstance(r, str) else {k: r[k] for k in ("codes", "calls", "alive", "follow_pwd")})
+        if isinstance(r, str):
+            return True
+        finals = [c for c in r["codes"] if c >= 200]
+        return len(finals) != 1 or not r["alive"] or r["follow_pwd"] != [257]
     cmds = doc["failure"]["input"]["commands"]
     snaps = S.run_history(S.USERS_ANON, S.TREE, to_events(cmds))
     f = oracle(cmds, snaps) + restart_scope_oracle(cmds, snaps)
